@@ -318,6 +318,7 @@ def check_C05(F, tier, t0):
     guarded(R, 'T tokens', engine_t.rule_tokens, F, R, {'Eq', 'ImpliesInv', 'Geq', 'Lt', 'Gt'})
     R.floor('functions', 12); R.floor('evaluator-counting-obligations', 5); R.floor('T:counting-operator-rows', 5)
     guarded(R, 'T regex', engine_t.rule_regex, F, R)      # names are read as written (tokenizer regex)
+    guarded(R, 'T number text', engine_t.rule_number_text, F, R)      # a number in the text is that number, or an error
     guarded(R, 'X5', engine_x.rule_X5, F, R)      # distinct names are distinct symbols
     return finish(R, 'proof', tier, t0,
         'Inductive proof (list induction, linear-integer normal forms decided exactly per linear form) that cmp_count(bs,n,cmp) = cmp(n - #true(bs)), aln/amn/exn = '
@@ -375,6 +376,7 @@ def front_end(R, F):
     guarded(R, 'T operators', engine_t.rule_operator_tables, F, R)
     guarded(R, 'T regex', engine_t.rule_regex, F, R)
     guarded(R, 'T input text', engine_t.rule_input_text, F, R)
+    guarded(R, 'T number text', engine_t.rule_number_text, F, R)
     # ... and the grammar: what the parser accepts, and which parsed piece ends up in which field of a syntax node
     guarded(R, 'A1', engine_a.rule_A1, F, R)
     guarded(R, 'A helpers', engine_a.rule_helpers, F, R)
@@ -540,7 +542,7 @@ def check_C12(F, tier, t0):
                 for r_ in live:
                     s2 = _copy.copy(s); s2.fn = r_; variants.append(s2)
             def discharge(sv):
-                for rule in (D.R0, D.R11, D.R8, D.R4, D.R10, D.R14, D.R15, D.R6, D.RS):
+                for rule in (D.R0, D.R11, D.R8, D.R4, D.R10, D.R14, D.R15, D.R6, D.R16, D.RS):
                     try:
                         rr = rule(sv)
                     except Exception as ex:
